@@ -132,7 +132,7 @@ class Engine(EngineBase):
         return sc
 
     def _files(self, rng):
-        names = ["f1", "sub/f2", "sub/deep/f3", "g.txt"]
+        names = ["f1", "sub/f2", "sub/deep/f3", "g.txt", ".hid", "sub/.dot/f4"]
         return rng.sample(names, rng.randrange(0, 4))
 
     def shrink(self, scenario):
